@@ -209,6 +209,24 @@ func c14Run(kind string, nv *namedValue) (v *pt.Violation, digest string, produc
 	}
 	w.Sync(0)
 	w.Sync(1)
+	// the other replica works three times and the origin pulls that: the origin's logical clock is now ahead of its own
+	// operation count, so the (era, lamport, client, seq) of what it produces next are four different numbers - an encoder
+	// or a stored form that mixes two of them up cannot go unnoticed
+	r1b := w.reps[1]
+	for i := 0; i < 3; i++ {
+		switch typ {
+		case "list":
+			r1b.li.Insert(r1b.li.Size(), fmt.Sprintf("z%d", i))
+		case "map":
+			r1b.mp.Put("zz", fmt.Sprintf("z%d", i))
+		case "doc":
+			r1b.doc.PutToObject("zz", fmt.Sprintf("z%d", i))
+		default:
+			r1b.cnt.IncreaseBy(1)
+		}
+	}
+	w.Sync(1)
+	w.Sync(0)
 	before := len(w.log)
 	var apiErr error
 	var perr interface{}
